@@ -358,6 +358,8 @@ def tie_refdefs(c, n, profile="debug"):
         d = d.rstrip(b"\n")
         if d.strip():
             docs.append(d)
+    docs.append(b'[a]: /u\n"t" junk')            # INL-2 (repaired): the title line is given back, the definition has no title
+    docs.append(b"[a]: /u\n't' junk\n[b]: /v\n(t)")
     cases = [("-", d) for d in docs]
     real = vlib.run_lines(vlib.VH[profile], harness_lines(cases), timeout=900)
     rm = refmaps(cases, profile)
